@@ -56,7 +56,16 @@ def _sdl_content(desc: bool, dep: bool, default: int, recursion: int, schema_def
     return result(ok, True)
 
 
-SPLIT_TARGETS = (None, "Query", "A", "Node", "U", "Color", "In", "B")
+def default_uses_missing_field(rec, base_rec):
+    saved = known.ENABLED
+    known.ENABLED = True
+    try:
+        return known.c11_default_uses_extension_field(rec, base_rec)
+    finally:
+        known.ENABLED = saved
+
+
+SPLIT_TARGETS = (None, "Query", "A", "Node", "U", "Color", "In", "B", "In2")
 
 
 def _sdl_layout(target: int, mode: int, order: int, ext_first: bool, ignore: bool, schema_def: bool, rec3: bool, custom_scalar: bool) -> bool:
@@ -70,10 +79,20 @@ def _sdl_layout(target: int, mode: int, order: int, ext_first: bool, ignore: boo
     if T is None and (M != 1 or EF):
         return result(True, False)
     with untraced():
-        rec = S.base_record(dict(desc=True, dep=True, default=10, recursion=3 if R3 else 0, schema_def=SD))
+        # default kind: plain object default, or (with the recursive input types) a default with a NESTED object of another input type
+        rec = S.base_record(dict(desc=True, dep=True, default=12 if R3 else 10, recursion=3 if R3 else 0, schema_def=SD))
         name = ("RootQ" if SD else "Query") if T == "Query" else T
         split = {name: M} if T else {}
         sdl = S.render(rec, split, O, EF)
+        if not IG and known.c11_default_uses_extension_field(rec, S.base_only(rec, split)):
+            return result(True, False)
+        if IG and default_uses_missing_field(rec, S.base_only(rec, split)):
+            # with extensions ignored the default names a field that does not exist: the document is invalid and must be rejected as such
+            try:
+                build_schema(sdl, ignore_extensions=True)
+            except (SDLError, SchemaError):
+                return result(True, True)
+            return result(False, True)
         kw = {}
         if CS:
             kw["additional_types"] = [ScalarType("Date", serialize=str, parse=str, description="a date")]
@@ -169,8 +188,8 @@ CONDITIONS = [
         witness={"desc": True, "dep": True, "default": 1, "recursion": 0, "schema_def": False, "mask": 0, "mutation": True},
     ),
     Cond(
-        name="sdl_layout", fn=_sdl_layout, quick=150, thorough=400, per_path=60, shards_quick=8, shards_thorough=8,
-        bound="full-content document: one type's members split over 1 or 2 extend blocks (8 targets incl. none) x 3 definition orders x extensions before/after definitions x ignore_extensions x schema definition x recursion x additional_types",
+        name="sdl_layout", fn=_sdl_layout, quick=150, thorough=400, per_path=60, shards_quick=9, shards_thorough=9,
+        bound="full-content document: one type's members split over 1 or 2 extend blocks (9 targets incl. none and an input type only reached through another input type's default) x 3 definition orders x extensions before/after definitions x ignore_extensions x schema definition x recursion x additional_types",
         symbolic={"target,mode": "choice: how members are split across extend blocks", "order,ext_first": "choice: document order", "ignore,schema_def,rec3,custom_scalar": "choice"},
         witness={"target": 2, "mode": 1, "order": 0, "ext_first": False, "ignore": False, "schema_def": False, "rec3": False, "custom_scalar": False},
     ),
